@@ -63,8 +63,13 @@ def run(ctx: core.Ctx):
         nd = -3000 if -3000 not in y else -32000
         xi = np.where(m, y, nd).astype("int16")
         xf = np.where(m, y.astype("float64"), np.nan)
+        if rng.random() < 0.3 and np.abs(y).max() < 12000:
+            y = (y + 20000).astype("int16")       # large level, small spread: products need more than a float32 mantissa
+            xi = np.where(m, y, nd).astype("int16")
+            xf = np.where(m, y.astype("float64"), np.nan)
         r_int = float(autocorr_1d(xi, nd))
         r_flt = float(autocorr_1d(xf))
+        r_f32 = float(autocorr_1d(xf.astype("float32")))     # int16 values are exact in float32: same result required
         ref = reference(y, m)
         key = (xi.tobytes(), nd)
         ctx.case(key, nontrivial=(not m.all()) and abs(ref) > 0, sample=dict(n=n, valid=int(m.sum()), head=xi[:10].tolist(), nodata=nd, value=r_int))
@@ -77,8 +82,8 @@ def run(ctx: core.Ctx):
             ctx.fail("autocorr_1d", inp, dict(int=r_int, float=r_flt), ref, note="Pearson correlation of the series with itself shifted by one step, gaps filled with the mean of the valid cells of each vector")
         if not (-1 - 1e-12 <= r_int <= 1 + 1e-12):
             ctx.fail("autocorr_1d", inp, r_int, "within [-1, 1]")
-        if r_int != r_flt and abs(r_int - r_flt) > 1e-12:
-            ctx.fail("autocorr_1d", inp, dict(int=r_int, float=r_flt), "integer/nodata and float/NaN encodings agree")
+        if (r_int != r_flt and abs(r_int - r_flt) > 1e-12) or abs(r_f32 - r_flt) > 1e-12:
+            ctx.fail("autocorr_1d", inp, dict(int=r_int, float64=r_flt, float32=r_f32), "integer/nodata and float/NaN encodings agree")
         # positive affine map keeping int16
         a, b = rng.choice([1, 2, 3]), rng.randint(-500, 500)
         y2 = y.astype(np.int64) * a + b
@@ -116,6 +121,35 @@ def run(ctx: core.Ctx):
         for name, got in (("autocorr_tyx", r_tyx), ("autocorr", r_yxt), ("accessor tyx", acc1), ("accessor yxt", acc2), ("dask tyx", acc3), ("dask yxt", acc4)):
             if not np.array_equal(np.asarray(got, dtype="float32"), want.astype("float32")):
                 ctx.fail(name, dict(cube=cube.tolist() if nt <= 12 else dict(shape=list(cube.shape))), np.asarray(got).tolist(), want.tolist(), note="same value for both layouts, numpy and dask")
+    import json, subprocess, sys
+    script = r"""
+import json, warnings
+warnings.filterwarnings("ignore")
+import numpy as np
+rng = np.random.default_rng(%d)
+cube = (rng.normal(size=(2, 3, 40)).cumsum(axis=-1) * 100 + 5000)
+cube[rng.random(cube.shape) < 0.2] = np.nan
+out = {}
+for dt in ("float64", "float32"):
+    c = cube.astype(dt)
+    from hdc.algo.ops.autocorr import autocorr, autocorr_1d_float
+    first = autocorr(c)                      # FIRST use of the float path in this process
+    ref = [[float(autocorr_1d_float.py_func(c[i, j].astype("float64"))) for j in range(3)] for i in range(2)]
+    out[dt] = dict(got=np.asarray(first, dtype="float64").tolist(), ref=ref)
+print(json.dumps(out))
+""" % ctx.seed
+    r = subprocess.run([sys.executable, "-c", script], capture_output=True, text=True, timeout=900)
+    try:
+        res = json.loads(r.stdout.strip().split("\n")[-1])
+    except Exception:  # noqa: BLE001
+        raise core.Infra("autocorr fresh-process worker failed: " + (r.stderr or r.stdout)[-400:])
+    for dt, v in res.items():
+        ctx.case(("fresh", dt), sample=dict(config="fresh process, float cube with NaN, (y,x,t) kernel first", dtype=dt))
+        ctx.count("fresh-process float path")
+        got, ref = np.array(v["got"], dtype="float64"), np.array(v["ref"])
+        if not np.allclose(got, ref, atol=2e-6, equal_nan=False):
+            ctx.fail("autocorr", dict(dtype=dt, config="first compiled use of the float path in a fresh process"), got.tolist(), ref.tolist(),
+                     note="float data with NaN gaps: compiled (y,x,t) kernel vs the mean-filled Pearson value of its own source")
     ctx.trusted += ["native model driver (Hdc/Model/Stats.lean at Float; x^-0.5 = libm pow)", "harness/props/c15.py oracle (NumPy mean-filled Pearson)"]
 
 
